@@ -173,10 +173,17 @@ def job_history(job):
                 if rng.random() < 0.5:
                     rng.shuffle(ks2)
                 av, bv = frac_vals(rng, ks), frac_vals(rng, ks2)
-                kind = rng.choice(['op', 'op', 'unary', 'reg', 'fail', 'spelling'])
+                kind = rng.choice(['op', 'op', 'unary', 'reg', 'fail', 'spelling', 'symbolic'])
                 name = rng.choice(['gp', 'op', 'ip', 'add', 'sub', 'sw', 'rp', 'cp']) if kind in ('op', 'fail') else \
                     rng.choice(['reverse', 'neg', 'normsq', 'hodge', 'unhodge', 'conjugate', 'involute', 'hodge', 'unhodge']) if kind == 'unary' else \
                     rng.choice(sorted(registered)) if kind == 'reg' else None
+                if kind == 'symbolic':
+                    # an operation on sympy-valued operands whose result needs the algebra's simplification step
+                    negsq = [k for k in range(1, N) if O.gp(fr.blade(k), fr.blade(k), fr.sig).get(0, 0) < 0]
+                    if not negsq:
+                        kind, name = 'unary', 'reverse'
+                    else:
+                        name = ('rotor', rng.choice(negsq))
                 if kind == 'spelling':
                     # a blade reached through two (generally different) spellings: the blade dictionary and coefficient access
                     cands = [n for n in alg.canon2bin if len(n) >= 3]
@@ -197,11 +204,21 @@ def job_history(job):
                         return getattr(A, name)(a), (a,)
                     if kind == 'reg':
                         return reg[name][0](a, b), (a, b)
+                    if kind == 'symbolic':
+                        import sympy
+                        t_ = sympy.Symbol('t')
+                        R = mv_from(A, (0, name[1]), [sympy.cos(t_), sympy.sin(t_)])
+                        one = mv_from(A, (0,), [1])
+                        res = (R * ~R) - one
+                        # keys and simplified values as exact data (an unsimplified leftover shows as an extra key)
+                        return mv_from(A, tuple(res.keys()), [F(int(sympy.simplify(v))) + 1000 if sympy.simplify(v).is_Integer else F(987654321) for v in res.values()]), (a,)      # +1000: a stored zero stays visible
                     if kind == 'spelling':
                         carrier = mv_from(A, (name[2], 0), [F(3), F(2)])
                         return A.blades[name[0]] * getattr(carrier, name[1]) + getattr(carrier, name[0]), (a,)
-                    # failing call: division by a null / zero element, then nothing else
-                    z = mv_from(A, (0,), [F(0)])
+                    # failing call: division by a null blade (code generation itself fails: the symbolic denominator is identically
+                    # zero) or, without null generators, by the zero scalar (the generated function fails at run time)
+                    null = [k for k in range(1, N) if not O.gp(fr.blade(k), fr.blade(k), fr.sig).get(0, 0)]
+                    z = mv_from(A, (null[0],), [F(1)]) if null and len(ks) % 2 else mv_from(A, (0,), [F(0)])
                     return A.div(a, z), (a,)
                 got = _safe(lambda: run(alg, registered))
                 fresh_alg = make_algebra(cfg)
